@@ -636,7 +636,7 @@ def dedup_known(viol, limit=40):
 
 
 def oracle(ctx, hints=()):
-    ncells = ctx.n(3, 4, boost=5)
+    ncells = ctx.n(3, 4, boost=2)   # boost looks at all 237 settings (sample_settings), fewer cells each
     cases, skipped = make_cases(ctx, ncells)
     viol, d2, evals, nontriv = [], 0, 0, 0
     per_cs = {}
